@@ -34,7 +34,7 @@ FAMILIES = {
     "io":        ([(0, 6, 0)], [16, 17, 12, 13, 28, 29, 32, 0, 24, 18, 15, 20], [[], [1], [0, 1]]),
     "selfmod":   ([(0, 6, 0)], [8, 12, 15, 16, 31, 32, 35, 3, 40, 24, 47, 19], [[]]),
     "unaligned": ([(0, 6, 0)], [16, 20, 9, 28, 33, 4, 36, 47, 1, 8, 24, 40], [[], [1]]),
-    "edges":     ([(0, 4, 0), (8, 2, 0)], [16, 64, 72, 32, 63, 80, 65, 0, 31, 79, 48, 56], [[]]),
+    "edges":     ([(0, 4, 0), (8, 2, 0)], [16, 24, 64, 72, 32, 63, 80, 65, 0, 31, 79, 56], [[]]),
     "zerotail":  ([(0, 8, 0)], [16, 32, 48, 52, 17, 28, 60, 64, 63, 47, 12, 56], [[], [1]]),
 }
 
@@ -142,13 +142,13 @@ def gen_case(rng: random.Random, w: int) -> dict:
     lw = w.bit_length() - 1
     in_addr = 3 * w + w.bit_length()
     nops = rng.randint(3, 8 if w > 8 else 6)
-    seg0_len = 2 * nops + rng.choice([0, 0, 2, 4])
+    seg0_len = 2 * nops + rng.choice([2, 2, 4, 6])
     segs = [[0, seg0_len]]
     # a second, far segment (its ops are reachable by jumps)
     far_start = None
     if rng.random() < 0.5:
-        cands = {8: [20, 28], 16: [64, 2046, 4090], 32: [1 << 14, (1 << 14) - 2, (1 << 20), (1 << 26) - 2],
-                 64: [1 << 14, (3 << 14) - 2, 1 << 23, (1 << 23) - 2, 1 << 40, (1 << 57)]}[w]
+        cands = {8: [20, 28, 30], 16: [64, 2046, 4090, 4094], 32: [1 << 14, (1 << 14) - 2, (1 << 20), (1 << 26) - 2, (1 << 27) - 2],
+                 64: [1 << 14, (3 << 14) - 2, 1 << 23, (1 << 23) - 2, 1 << 40, (1 << 57), (1 << 58) - 2, (1 << 58) - 4]}[w]
         far_start = rng.choice(cands)
         if far_start >= seg0_len:
             segs.append([far_start, rng.choice([2, 4, 6])])
@@ -171,7 +171,13 @@ def gen_case(rng: random.Random, w: int) -> dict:
         wa = s[0] + rng.randrange(min(s[1], 2 * nops + 4))
         return wa * w + rng.randrange(w)
 
+    wild = rng.choice([0.08, 0.2, 0.4, 1.0])
+    data_words = [wa for wa in range(2 * nops, seg0_len)] or [1]
+
     def pick_flip(ip):
+        if rng.random() > wild:
+            # harmless: a bit of a data word after the ops, or the high bits of some op's flip word (re-aims a later flip)
+            return (rng.choice(data_words) * w + rng.randrange(w)) & word_mask
         r = rng.random()
         if r < 0.18:
             return rng.choice([dw, dw + 1])                      # output bits
@@ -190,8 +196,12 @@ def gen_case(rng: random.Random, w: int) -> dict:
         return seg_bits() & word_mask
 
     def pick_jump(ip, last):
+        if last:
+            return ip
+        if rng.random() > wild:
+            return all_ops[all_ops.index(ip) + 1] & word_mask
         r = rng.random()
-        if last or r < 0.12:
+        if r < 0.12:
             return ip                                             # halt (unless it flips itself)
         if r < 0.55:
             return (ip + dw) & word_mask                          # next op
@@ -219,9 +229,35 @@ def gen_case(rng: random.Random, w: int) -> dict:
     for _ in range(rng.randint(0, 3)):
         wa = rng.randrange(segs[0][1]) if segs[0][1] <= 64 else rng.randrange(2 * nops + 4)
         data.setdefault(wa, rng.choice([0, 1, word_mask, rng.randrange(1 << w), 0xBB67AE8584CAA73B & word_mask]))
-    nin = rng.choice([0, 0, 1, 2, 5, 9])
+    nin = rng.choice([0, 1, 2, 5, 9, 16])
     inp = [rng.randrange(2) for _ in range(nin)]
     return {"w": w, "segs": segs, "data": data, "inp": inp, "version": rng.randrange(4)}
+
+
+def directed_cases() -> List[dict]:
+    """hand-picked boundary layouts at every width (top of the address space, ops on the last words)."""
+    out = []
+    for w in (8, 16, 32, 64):
+        lw = w.bit_length() - 1
+        mask = (1 << w) - 1
+        top = 1 << (w - lw)          # number of words reachable by w-bit bit addresses
+        harmless = 3 * w
+        # op 0 jumps to an op on the LAST word of the address space: its jump word is word `top` (bit address 2^w)
+        out.append({"w": w, "segs": [[0, 4], [top - 2, 2]], "data": {0: harmless, 1: ((top - 1) * w) & mask},
+                    "inp": [], "version": 1, "tag": "jump-word-beyond-top"})
+        # the same with the word above the top inside a segment (a segment may extend beyond 2^w bits)
+        out.append({"w": w, "segs": [[0, 4], [top - 2, 4]], "data": {0: harmless, 1: ((top - 1) * w) & mask, top - 1: harmless, top: 0},
+                    "inp": [], "version": 2, "tag": "jump-word-above-top-in-segment"})
+        # an aligned op on the last two words: runs, then halts on itself
+        out.append({"w": w, "segs": [[0, 4], [top - 2, 2]], "data": {0: harmless, 1: ((top - 2) * w) & mask, top - 2: harmless, top - 1: ((top - 2) * w) & mask},
+                    "inp": [], "version": 3, "tag": "last-op-of-address-space"})
+        # an unaligned op whose jump word straddles the top
+        out.append({"w": w, "segs": [[0, 4], [top - 2, 2]], "data": {0: harmless, 1: ((top - 2) * w + 1) & mask, top - 2: 2 * harmless, top - 1: 0},
+                    "inp": [], "version": 0, "tag": "unaligned-straddling-top"})
+        # flip of the very last bit of the address space, and of the first bit above the last segment
+        out.append({"w": w, "segs": [[0, 6], [top - 2, 2]], "data": {0: mask, 1: 2 * w, 2: ((top - 2) * w - 1) & mask, 3: 2 * w},
+                    "inp": [], "version": 1, "tag": "flip-last-bit"})
+    return out
 
 
 def case_segments(case) -> List[Tuple[int, int, List[int]]]:
@@ -294,7 +330,7 @@ def _run_case(args):
             return {"skipped": "non-halting"}
         addrs = case_mem_addrs(case)
         base = {"w": w, "segs": [[nb(s, AW), nb(l, AW)] for s, l, _ in segs],
-                "data": [[nb(s + i, AW), nb(v, w // 8)] for s, _, dd in segs for i, v in enumerate(dd)],
+                "data": [[nb(s + i, AW), nb(v, w // 8)] for s, _, dd in segs for i, v in enumerate(dd) if v],
                 "inp": case["inp"]}
         for en in engine_names:
             obs = engines.run_engine(fjm_run, path, en, case["inp"], w=w, mem_addrs=addrs, budget_s=5.0,
@@ -329,7 +365,7 @@ def validate_records(chk: Check, records: List[dict], name: str, batch: int = 25
         jobs = []
         offsets = []
         for b0 in range(0, len(records), batch):
-            part = records[b0:b0 + batch]
+            part = [{k: r[k] for k in ("w", "segs", "data", "inp", "obs")} for r in records[b0:b0 + batch]]
             f = scratch / f"batch_{b0}.json"
             f.write_text(json.dumps(part))
             jobs.append(dict(module="Trace_FJMachine", cfg_text=TRACE_CFG, workers=1, env={"TRACE_FILE": str(f)},
@@ -362,6 +398,16 @@ def classify(rec: dict, fail: Sequence[str]) -> dict:
     w = rec["w"]
     key = {"engine_family": "native" if rec["engine"].startswith("native") else rec["engine"].split("-")[0],
            "clauses": ",".join(sorted(fail)), "w": w}
+    return key
+
+
+def classify_v(rec: dict, v: dict) -> dict:
+    """classification that also looks at what the specification prescribes for this input."""
+    key = classify(rec, v["fail"])
+    spec = v.get("spec", {})
+    if rec["w"] == 64 and spec.get("topop"):
+        key["input_class"] = "w64-op-on-last-word-of-address-space"
+        del key["clauses"]
     return key
 
 
@@ -426,6 +472,7 @@ def run(chk: Check, replay=None):
     for i in range(ncases):
         w = [8, 16, 32, 64][i % 4]
         cases.append(gen_case(rng, w))
+    cases += directed_cases()
     gmax = 60
     outs = par.pmap(_run_case, [(i, c, gen_engines, gmax) for i, c in enumerate(cases)], so_path=so, procs=16,
                     chunksize=8)
@@ -449,7 +496,7 @@ def run(chk: Check, replay=None):
         if v is None:
             raise MachineryFailure(f"no verdict from TLC for record {i}")
         if v["fail"]:
-            chk.violation(classify(rec, v["fail"]),
+            chk.violation(classify_v(rec, v),
                           f"engine {rec['engine']} (w={rec['w']}) observation rejected by Trace_FJMachine: clauses {v['fail']}; spec says {v['spec']}",
                           {"record": rec, "verdict": v})
 
